@@ -396,8 +396,8 @@ func c08Emit(w *emit.Writer, res *c08Result) {
 	for gi, f := range order {
 		ths := groups[f]
 		type ev struct {
-			t       int64
-			k, a, b int
+			T       int64 `json:"t_ns"`
+			K, A, B int
 		}
 		var evs []ev
 		pids := map[int]bool{}
@@ -427,7 +427,7 @@ func c08Emit(w *emit.Writer, res *c08Result) {
 				evs = append(evs, ev{t, 2, pid, 0})
 			}
 		}
-		sort.SliceStable(evs, func(i, j int) bool { return evs[i].t < evs[j].t })
+		sort.SliceStable(evs, func(i, j int) bool { return evs[i].T < evs[j].T })
 		e := &emit.Enc{}
 		switch sc.Pre.Kind {
 		case "absent":
@@ -451,7 +451,7 @@ func c08Emit(w *emit.Writer, res *c08Result) {
 		}
 		e.Len(len(evs))
 		for _, x := range evs {
-			e.Z(x.t).Int(x.k).Int(x.a).Int(x.b)
+			e.Z(x.T).Int(x.K).Int(x.A).Int(x.B)
 		}
 		mh := hz
 		if res.Early {
